@@ -152,8 +152,9 @@ func pad(k, n int) (src, shown string) {
 		return "{#" + strings.Repeat("c", n-4) + "#}", ""
 	case k == 2 && n >= 7:
 		return "{# c" + strings.Repeat("c", n%7) + " #}" + strings.Repeat("{# c #}", n/7-1), ""
-	case k == 3 && n >= 4:
-		s := strings.Repeat("€\n", n/4) + strings.Repeat("0", n%4)
+	case k == 3 && n >= 6:
+		// both ends are non-whitespace: padding next to a dashed delimiter must not offer it anything to trim
+		s := "0" + strings.Repeat("€\n", (n-2)/4) + strings.Repeat("0", (n-2)%4) + "0"
 		return s, s
 	case k == 4 && n >= 6:
 		return strings.Repeat("0{#c#}", n/6) + strings.Repeat("0", n%6), strings.Repeat("0", n/6+n%6)
